@@ -307,3 +307,12 @@ fn ext_calls(rep: &Report, tier: Tier) {
     });
     rep.part(json!({"part":"encap_ext first calls","chains":ch.len(),"cells":n_cells.load(std::sync::atomic::Ordering::Relaxed)}));
 }
+
+/// optional extension ids at the edges of every H-LEN class (value-specific slips such as `<=` on a range bound)
+pub fn boundary_exts() -> Vec<(u16, Vec<u8>)> {
+    let mut v = vec![];
+    for (id, n) in [(0x0100u16, 0usize), (0x01FF, 0), (0x0200, 2), (0x02FF, 2), (0x0300, 4), (0x03FF, 4), (0x0400, 6), (0x04FF, 6), (0x0500, 8), (0x05FF, 8)] {
+        v.push((id, (0..n).map(|i| 0xB0 + i as u8).collect()));
+    }
+    v
+}
